@@ -21,6 +21,11 @@ var timePool = []string{
 	"1969-12-31T23:59:59Z",
 	"2021-06-15T12:30:00Z",
 	"1999-12-31T23:59:59.999999999Z",
+	// outside the range of int64 nanoseconds since 1970 (1677-09-21 .. 2262-04-11)
+	"9999-12-31T23:59:59Z",
+	"1582-10-15T00:00:00Z",
+	"0001-01-02T00:00:00Z",
+	"2262-04-11T23:47:16.854775808Z",
 }
 
 var timeVals = func() []time.Time {
